@@ -126,6 +126,9 @@ structure Sim where
   qMarks : List Nat := []
   answered : List Nat := []
   inter : Bool := false
+  /-- partitions (table, id) the flush in flight created and merged away again (batch + compaction in the SAME
+      `wal_flush`): they are in no catalogue ever stored, so their sub-partition keys are never observed -/
+  unseen : List (TName N × Nat) := []
 
 def Sim.init (maxWal : Nat) : Sim :=
   { w := initWorld (params maxWal), tables := [.metaTables], dirs := [], ops := [], lastWasFlush := false,
@@ -255,7 +258,7 @@ def Sim.stepTok (s : Sim) (tok : String) : Sim :=
   | ['Q'] => (s.applyI .forceReq false).noteQ
   | 'Z' :: 'b' :: _ =>
     match (tok.drop 2).toString.toNat? with
-    | some k => { (s.applyI (.flushBegin k) false) with sinceFreezeN := 0 }
+    | some k => { (s.applyI (.flushBegin k) false) with sinceFreezeN := 0, unseen := [] }
     | none => { s with fault := some "bad-op" }
   | 'Z' :: 'p' :: _ =>
     match parseCatalogue (tok.drop 2).toString with
@@ -265,7 +268,12 @@ def Sim.stepTok (s : Sim) (tok : String) : Sim :=
       let s1 := { s with dirs := parts.foldl (fun (acc : List (TName N × String)) (p : ObsPart) => if acc.any (fun d => d.1 = p.table) then acc else acc ++ [(p.table, p.dir)]) s.dirs,
                          lastObs := obs }
       let fi := inferFlushFrozen s1 parts
-      s1.applyI (.flushBatch fi) false
+      let s2 := s1.applyI (.flushBatch fi) false
+      let unseen := s2.tables.flatMap (fun t =>
+        let before := (s.w.disk.parts t).map (·.id)
+        let seen := (parts.filter (fun p => p.table = t)).map (·.pm.id)
+        ((((s2.w.disk.parts t).map (·.id)).eraseDups).filter (fun i => !before.contains i && !seen.contains i)).map (fun i => (t, i)))
+      { s2 with unseen := unseen }
   | ['Z', 'm'] => s.applyI .flushMeta false
   | ['Z', 'd'] => s.applyI .flushGcParts false
   | ['Z', 'x'] => s.applyI .flushGcWal false
@@ -410,6 +418,36 @@ def listingModel (s : Sim) : String :=
   let wal := d.wal.map (fun f => "x" ++ hexAscii s!"wal/{f.id}.wal")
   let parts := s.tables.flatMap (fun t => (d.parts t).map (fun f => partPathTok (dirOf s t) f.id f.key))
   "L" ++ showList id (sortStrs (metaF ++ wal ++ parts))
+
+/-- Hex token prefix `tables/<dir>/<id:05>_` of the files of one partition. -/
+def partPrefixTok (dir : String) (id : Nat) : String :=
+  "x" ++ hexAscii "tables/" ++ (dir.drop 1).toString ++ hexAscii "/" ++ hexAscii (pad5 id) ++ hexAscii "_"
+
+/-- As `listingModel`, for a dump taken WHILE a flush is in flight.  The sub-partition keys of a partition that this
+    flush created and merged away again (`Sim.unseen`) are not determined by the history line (`subpartition` — C15 —
+    is not part of the storage machine and no stored catalogue ever lists that partition): as long as the model has
+    files of such a partition (from `flushBatch` until `flushGcParts`), the prediction is "at least one file
+    `tables/<dir>/<id>_*`", instantiated with the names found in the observed listing `ltok`; everything else
+    (catalogue file, segments, every other partition's files, and the absence of that partition's files before the
+    batch step and after `delete_orphaned_partitions`) is predicted exactly. -/
+def listingModelObs (s : Sim) (ltok : Option String) : String :=
+  match s.fault with
+  | some f => "fault:" ++ f
+  | none =>
+  let d := s.w.disk
+  let metaF := if d.metaFile.isSome then ["x" ++ hexAscii "meta"] else []
+  let wal := d.wal.map (fun f => "x" ++ hexAscii s!"wal/{f.id}.wal")
+  let listed : List String := match ltok with
+    | some l => if l = "L[]" then [] else (l.drop 1).toString.splitOn ","
+    | none => []
+  let parts := s.tables.flatMap (fun t => (d.parts t).map (fun f => (t, f.id, partPathTok (dirOf s t) f.id f.key)))
+  let isUnseen (x : TName N × Nat × String) : Bool := s.unseen.any (fun u => u.1 = x.1 && u.2 = x.2.1)
+  let fixedP := (parts.filter (fun x => !isUnseen x)).map (·.2.2)
+  let openP := (s.unseen.filter (fun u => parts.any (fun x => x.1 = u.1 && x.2.1 = u.2))).flatMap (fun u =>
+    let pre := partPrefixTok (dirOf s u.1) u.2
+    let obs := listed.filter (fun x => x.startsWith pre && x.endsWith (hexAscii ".part"))
+    if obs.isEmpty then (parts.filter (fun x => x.1 = u.1 && x.2.1 = u.2)).map (·.2.2) else obs)
+  "L" ++ showList id (sortStrs (metaF ++ wal ++ fixedP ++ openP))
 
 def catalogueModel (s : Sim) : String :=
   match s.fault with
